@@ -100,9 +100,15 @@ fn main() {
             extra.insert("transitions".into(), json!(1));
             // all violations, including those the parent will match against known findings
             extra.insert("all_violations".into(), json!(total.violations.iter().map(|v| json!({"signature": v.sig, "what": v.what, "cases": v.count, "detail": v.detail})).collect::<Vec<_>>()));
-            if g("model_code_divergences") > 0 && total.violations.is_empty() {
-                eprintln!("MACHINERY: model (real constants) and real parser diverge on {} schedule(s)", g("model_code_divergences"));
-                std::process::exit(2);
+            if g("model_code_divergences") > 0 {
+                // The verdict is always taken from real-code observations (every schedule above was executed on
+                // the real parser and compared with the real whole-buffer parse). A model that no longer matches
+                // the code only voids the claim that the model search covers ALL schedules of this code.
+                eprintln!("[C10] WARNING: the buffer-machine model and the real parser diverge on {} schedule(s): the all-schedules model result does not transfer to this code (update vh::bufmodel); the verdict rests on the schedules executed on the real parser.", g("model_code_divergences"));
+                extra.insert("exhaustive".into(), json!(false));
+                extra.insert("model_binding".into(), json!("BROKEN: model and code diverge; coverage = the schedules executed on the real code only"));
+            } else {
+                extra.insert("model_binding".into(), json!("every replayed schedule matched the model read by read and callback by callback"));
             }
         }));
         def
